@@ -69,7 +69,7 @@ def main(argv):
                     mp = Mapper(u)
                     src = u.prog.alloc(ct, 's')
                     mp.load(src, td, module, img)
-                    cap = 80
+                    cap = 600
                     # encode
                     buf = u.prog.buffer(cap, name='dst')
                     r = u.prog.call(cname + '_encode', [Ptr(buf, 0), ival(U64, cap), Ptr(src)])
@@ -80,6 +80,8 @@ def main(argv):
                         stats['mismatches'] += 1
                         print('MISMATCH encode %s/%s.%s %s: interpreter %d %s, gcc %d %s' % (
                             codec, tpl['id'], ty, cgen.describe(src, None), r.sk(), mine.hex(), rn, data.hex()))
+                        continue
+                    if rn < 0:
                         continue
                     # too-small buffers
                     for size in sorted({0, max(rn - 1, 0), rnd.randrange(rn + 1)} - {rn}):
